@@ -28,7 +28,8 @@ CONSTANTS Handles,       \* handle ids (each owns a token while alive)
           AnnounceLate,  \* mutant: announce at the end of the operation instead of the start
           SkipOneToken,  \* mutant: the release test ignores one token
           FreeAtOnce,    \* mutant: the retired list is released immediately
-          AppendPending  \* mutant: while an epoch change is pending, the waiting backlog is added to its batch
+          AppendPending, \* mutant: while an epoch change is pending, the waiting backlog is added to its batch
+          TokenlessSwap  \* mutant: a leaving handle gives its token back before it edits the stream list
 
 VARIABLES gptr, nextObj, freed, waitToFree, toFree, mmEpoch, innerEpoch, sig,
           tok,       \* [handle -> epoch in its token]; handles not in DOMAIN have no token
@@ -99,6 +100,15 @@ SwapBegin(h) == /\ pc[h] = "idle" /\ h \in Churners /\ h \in Live /\ nops[h] < M
                 /\ holds' = [holds EXCEPT ![h] = {gptr}] /\ cur' = [cur EXCEPT ![h] = gptr]
                 /\ Go(h, "cas")
                 /\ UNCHANGED <<gptr, nextObj, freed, waitToFree, toFree, mmEpoch, innerEpoch, sig, retAt>>
+\* mutant only: the handle gives its token back first and then behaves like SwapBegin
+SwapBeginLeaving(h) == /\ TokenlessSwap
+                       /\ pc[h] = "idle" /\ h \in Churners /\ h \in Live /\ Cardinality(Live) > 1
+                       /\ nops[h] < MaxOps /\ nextObj <= MaxObj
+                       /\ tok' = [g \in Live \ {h} |-> tok[g]]
+                       /\ nops' = [nops EXCEPT ![h] = @ + 1]
+                       /\ holds' = [holds EXCEPT ![h] = {gptr}] /\ cur' = [cur EXCEPT ![h] = gptr]
+                       /\ Go(h, "cas")
+                       /\ UNCHANGED <<gptr, nextObj, freed, waitToFree, toFree, mmEpoch, innerEpoch, sig, retAt>>
 SwapCas(h) == /\ pc[h] = "cas"
               /\ IF gptr = cur[h]
                  THEN /\ gptr' = nextObj /\ nextObj' = nextObj + 1 /\ Go(h, "retire")
@@ -118,7 +128,7 @@ DropHandle(h) == /\ pc[h] = "idle" /\ h \in Live /\ Cardinality(Live) > 1
                  /\ UNCHANGED <<gptr, nextObj, freed, waitToFree, toFree, mmEpoch, innerEpoch, sig, pc, holds, cur, nops, retAt>>
 
 Step(h) == \/ OpBegin(h) \/ OpLoad(h) \/ OpUse(h) \/ OpEnd(h)
-           \/ SwapBegin(h) \/ SwapCas(h) \/ SwapRetire(h) \/ DropHandle(h)
+           \/ SwapBegin(h) \/ SwapBeginLeaving(h) \/ SwapCas(h) \/ SwapRetire(h) \/ DropHandle(h)
 Next == \E h \in Handles : Step(h)
 Spec == Init /\ [][Next]_vars
 
@@ -128,5 +138,7 @@ PublishedAlive == gptr \notin freed
 NoDoubleRetire == waitToFree \cap toFree = {} /\ (waitToFree \cup toFree) \cap freed = {}
 (* the rule the harness checks on every real release (event "earlyfree"): an object is released only after an
    epoch change that followed its hand-over *)
+(* the rule behind the harness event "tokenless": only a handle that owns a token may hold a stream list *)
+HoldersHaveTokens == \A h \in Handles : holds[h] # {} => h \in Live
 ReleaseAfterBump == \A o \in freed : o \in DOMAIN retAt => retAt[o] < mmEpoch
 =============================================================================
